@@ -14,6 +14,8 @@ import (
 	"time"
 
 	"gitlab.com/gomidi/midi/v2"
+	cc "gitlab.com/gomidi/midi/v2/internal/verifh/conccases"
+	cp "gitlab.com/gomidi/midi/v2/internal/verifh/concpairs"
 	"gitlab.com/gomidi/midi/v2/internal/verifh/engine"
 	"gitlab.com/gomidi/midi/v2/smf"
 )
@@ -392,6 +394,9 @@ func tempoValues(part, parts int) {
 func main() {
 	ctx = engine.Start("C11", "exploration")
 	if ctx.ReplayPath != "" {
+		if cp.Replay(ctx, ctx.LoadReplay(), "time-at", cc.TimeAt()) {
+			ctx.Finish("replay")
+		}
 		m := ctx.LoadReplay()
 		if m["kind"] == "tempomap" {
 			var evs []tev
@@ -416,6 +421,10 @@ func main() {
 			jobs = append(jobs, job{r, f})
 		}
 	}
+	ctx.Jobs("concurrent", 1, func(int) {
+		cp.Litmus(ctx)
+		cp.Check(ctx, "time-at", cc.TimeAt())
+	})
 	ctx.Jobs("maps", len(jobs), func(j int) { maps(jobs[j].r, jobs[j].f) })
 	ctx.Jobs("inverse", 8, func(j int) { inverse(j) })
 	ctx.Jobs("tempo-values", 16, func(j int) { tempoValues(j, 16) })
